@@ -495,7 +495,7 @@ func (r *Realm) Method(name string, o *Obj, args []Value) Value {
 			dc := r.ToIntegerOrInfinity(args[1])
 			delCount = math.Min(math.Max(dc, 0), length-start)
 		}
-		if length+itemCount-delCount > MaxSafe {
+		if (length-delCount)+itemCount > MaxSafe { // this association keeps the float arithmetic exact
 			r.ThrowType()
 		}
 		a := r.ArraySpeciesCreate(o, delCount)
@@ -535,7 +535,7 @@ func (r *Realm) Method(name string, o *Obj, args []Value) Value {
 				k++
 			}
 		}
-		r.SetThrow(o, "length", length-delCount+itemCount)
+		r.SetThrow(o, "length", (length-delCount)+itemCount)
 		return a
 
 	case "toReversed":
@@ -572,7 +572,7 @@ func (r *Realm) Method(name string, o *Obj, args []Value) Value {
 		default:
 			skip = math.Min(math.Max(r.ToIntegerOrInfinity(args[1]), 0), length-start)
 		}
-		newLen := length + insertCount - skip
+		newLen := (length - skip) + insertCount
 		if newLen > MaxSafe {
 			r.ThrowType()
 		}
